@@ -140,6 +140,15 @@ fn bytes_case(stream: &[u8], cfg: &Config) -> Value {
 }
 
 fn replay_bytes(case: &Value) -> Result<(), String> {
+    if let Some(idx) = case.get("index").and_then(|i| i.as_u64()) {
+        // a watchdog hit of the exhaustive part names the string by its index: run it under every
+        // configuration
+        let s = index_to_string(idx);
+        for cfg in all_configs() {
+            exec(&s, &cfg, &[], None).map_err(|e| format!("{} [input '{}' config {}]", e, esc(&s), config_json(&cfg)))?;
+        }
+        return Ok(());
+    }
     let stream = unhex(case["hex"].as_str().unwrap_or(""));
     let cfg = config_from_json(&case["config"]);
     let reads: Option<Vec<usize>> = case
